@@ -98,6 +98,10 @@ def gen_wcfg(rng, stats, comp=None, small=True):
     a = "comp=%d level=%s bs=%d ri=%d pre=%s" % (comp, level, bs, ri, hx(pre))
     if minbs is not None:
         a += " minbs=%d" % minbs
+    if small and rng.chance(1, 8):
+        # the 32-bit restart-offset threshold (UINT32_MAX in block_builder.c / block.c) lowered in the harness translation
+        # units: blocks whose entry region exceeds it get 64-bit restart arrays, on the writer side too
+        a += " thr=%d" % rng.pick([8, 40, 200]); stats.bump("writer_lowered_restart_threshold")
     return a, comp, bs, ri
 
 
@@ -319,12 +323,15 @@ def gen_table_case(rng, stats, mode="mixed", comp=None, small=True, nkeys=None, 
     lines.append("w.prefix 1")
     # the tools built from the tree, on the finished file
     prehex = dict(a.split("=", 1) for a in cfg.split(" ") if "=" in a).get("pre", "-")
-    lines.append("blob 9 %s$f" % ("" if prehex == "-" else prehex))
-    lines.append("tool.info 9")
-    for _ in range(rng.pick([1, 2])):
-        lines.append("tool.dump 9" + gen_dump_opts(rng, keys, stats))
+    thr = dict(a.split("=", 1) for a in cfg.split(" ") if "=" in a).get("thr")
+    if thr is None:
+        # (the tools are separate binaries built with the real threshold: not run on lowered-threshold files)
+        lines.append("blob 9 %s$f" % ("" if prehex == "-" else prehex))
+        lines.append("tool.info 9")
+        for _ in range(rng.pick([1, 2])):
+            lines.append("tool.dump 9" + gen_dump_opts(rng, keys, stats))
     verify = rng.below(2)
-    lines.append("r.openw 2 1 verify=%d madv=%d" % (verify, rng.below(2)))
+    lines.append("r.openw 2 1 verify=%d madv=%d%s" % (verify, rng.below(2), "" if thr is None else " thr=" + thr))
     # full iteration
     lines.append("r.it 2 10 iter")
     for _ in range(len(keys) + 2):
